@@ -265,6 +265,7 @@ C11_UNITS = [
           "output.len() != sample_len() panics (should_panic harness)", kind="bounded", bound="one concrete instance (len 2 distribution, len 3 buffer)", timeout=900, stubs=["sqrt_c"]),
 ]
 C11_UNITS[-1]["should_panic"] = True
+
 C11_UNITS[0]["tier_by_prop"] = {"C04": "thorough"}     # 8 minutes: part of C11's quick tier, of C04's thorough tier
 C11_UNITS += [
 ]
@@ -288,10 +289,10 @@ for _t, _ty, _field, _expr in (("weibull", "Weibull", "inv_shape", "1/shape"), (
 
 COMPOSITE_UNITS = []
 for _n, _ty, _file, _args, _obl in [('lognormal', 'LogNormal', 'src/normal.rs', [('mu', 'f64'), ('sigma', 'f64')], '!NaN && x >= 0'), ('skew_normal', 'SkewNormal', 'src/skew_normal.rs', [('location', 'f64'), ('scale', 'f64'), ('shape', 'f64')], '!NaN'), ('gamma', 'Gamma', 'src/gamma.rs', [('shape', 'f64'), ('scale', 'f64')], '!NaN && x >= 0'), ('chi_squared', 'ChiSquared', 'src/chi_squared.rs', [('k', 'f64')], '!NaN && x >= 0'), ('beta', 'Beta', 'src/beta.rs', [('alpha', 'f64'), ('beta', 'f64')], '!NaN && 0 <= x <= 1'), ('poisson', 'Poisson', 'src/poisson.rs', [('lambda', 'f64')], '!NaN && x >= 0 (only the Knuth branch, lambda < 12, returns within one iteration)'), ('pert', 'Pert', 'src/pert.rs', [('min', 'f64'), ('max', 'f64'), ('mode', 'f64')], '!NaN && x >= min')]:
-    COMPOSITE_UNITS.append(plain("c03_%s_sample_f64" % _n, "c03", ["C03"], "%s::sample" % _ty, _file, _args + [("words", "words8")],
+    COMPOSITE_UNITS.append(plain("c03_%s_sample_f64" % _n, "c03", ["C03"], "%s::sample" % _ty, _file, [("words", "words8")] + _args,
         "parameters in E, all words: " + _obl, kind="bounded", tier="quick" if _n == "lognormal" else "thorough", timeout=3600, extra=["--no-unwinding-checks"],
         bound="one iteration of every loop on the path (rejection loop and the ziggurat loop inside it): unwind 1, no unwinding assertion",
-        stubs=["exp", "log", "pow", "sqrt_c", "floor"]))
+        stubs=["exp", "log", "pow", "sqrt_c", "floor"], replay={"kind": "sampler", "id": _n, "float": "f64"}))
 
 
 def all_units():
